@@ -404,8 +404,34 @@ type Report struct {
 }
 
 func NewReport(e *Env, level string) *Report {
-	return &Report{env: e, known: loadFindings(filepath.Join(e.Verif, "known-findings", e.ID+".json"), e.ID),
+	r := &Report{env: e, known: loadFindings(filepath.Join(e.Verif, "known-findings", e.ID+".json"), e.ID),
 		viol: map[string]*violation{}, Level: level, Extra: map[string]interface{}{}}
+	currentReport = r
+	return r
+}
+
+var currentReport *Report
+
+// Vacuous ends a run in which a required part of the explored space never occurred.  That is a failure of the
+// machinery (exit 2) - unless the run already recorded violations that are not known findings: a defect that
+// breaks whole families of cases (programs that no longer complete, classes that are no longer created) also
+// empties the partitions that come after it, and the violations are the verdict then, not the vacuity.
+func Vacuous(format string, a ...interface{}) {
+	if r := currentReport; r != nil {
+		r.mu.Lock()
+		n := 0
+		for k := range r.viol {
+			if _, ok := r.known[k]; !ok {
+				n++
+			}
+		}
+		r.mu.Unlock()
+		if n > 0 {
+			fmt.Printf("NOTE "+format+" (not judged: %d violation keys recorded)\n", append(a, n)...)
+			r.Finish()
+		}
+	}
+	Inconclusive(format, a...)
 }
 
 // Violation records one divergence between the real code and the specification, keyed by the
